@@ -198,7 +198,7 @@ def pSubtable : P Subtable := fun r => do
     let (bc, r) ← pCov r
     let (m, r) ← pList pMarkRec r
     let (b, r) ← pList (pList pAnchor) r
-    some (.gpos41 mc bc m b, r)
+    some (.gpos41 mc bc m b [], r)
   else if tag == 107 then
     let (mc, r) ← pCov r
     let (bc, r) ← pCov r
@@ -239,7 +239,7 @@ def pCase : P Case := fun r => do
   let (gd, r) ← pGdef r
   let (lk, r) ← pNats r
   let (h, r) ← pList (pList pGlyph) r
-  some (⟨ll, gd, lk, h⟩, r)
+  some (⟨resolveLL gd.glyphClass ll, gd, lk, h⟩, r)
 
 def parseCase (fs : List (String × String)) : Option Case := do
   let d ← getField fs "d"
